@@ -250,3 +250,31 @@ def r13_4_publication(ctx: Ctx) -> RuleResult:
         else:
             rr.ok({"registry": q, "locked": locked})
     return rr
+
+
+@rule("C13")
+def r13_5_lazy_slots(ctx: Ctx) -> RuleResult:
+    from ..memo import lazy_slots
+
+    rr = RuleResult("R13.5", "lazily filled slots: the slot tested for None is the slot that is filled (no lazy getter overwrites a sibling's slot)", min_instances=60)
+    for ls in lazy_slots(ctx.M):
+        rr.inst()
+        if ls.problem:
+            rr.fail(ls.fn.qual, ls.problem, ctx.loc(ls.fn, ls.node))
+        else:
+            rr.ok({"getter": ls.fn.qual, "slot": ls.slot})
+    return rr
+
+
+@rule("C13")
+def r13_6_memo_keys(ctx: Ctx) -> RuleResult:
+    from ..memo import memo_tables
+
+    rr = RuleResult("R13.6", "memo tables: the key read is the key filled, and it mentions every data parameter the stored value depends on", min_instances=12)
+    for mt in memo_tables(ctx.M):
+        rr.inst(nontrivial=mt.table != "functools.cache")
+        if mt.problem:
+            rr.fail(mt.fn.qual, mt.problem, ctx.loc(mt.fn, mt.node))
+        else:
+            rr.ok({"memo": mt.fn.qual, "table": mt.table, "key": mt.store_key, "value depends on": sorted(mt.deps)})
+    return rr
